@@ -185,3 +185,12 @@ Proof.
   split. { vm_compute. tauto. }
   split; vm_compute; reflexivity.
 Qed.
+
+(* the two reference readings agree where both apply: whatever the plain reading accepts (uncompressed frames; it also demands
+   that every text fragment is a viable UTF-8 prefix), the reading for compressed connections accepts with the same messages
+   and the inflate tape untouched -- so on a compressed connection uncompressed traffic is delivered exactly as on a plain one *)
+Theorem C01_readings_agree_on_uncompressed_traffic : forall fs open tape ms open',
+  Forall plain fs -> Forall (fun f => f_rsv1 f = false) open ->
+  ref_messages open fs = Some (ms, open') -> Proofs.DeliveryZ.ref_messages_z open tape fs = Some (ms, open', tape).
+Proof. exact Proofs.DeliveryZ.ref_messages_z_extends_ref_messages. Qed.
+Print Assumptions C01_readings_agree_on_uncompressed_traffic.
